@@ -25,8 +25,14 @@ else) is part of "every call".  This file makes the buffer explicit:
   allocation, or a window `[off, off+len)` of the party's long-lived array,
   either as the earlier calls left it (`pre = none`) or overwritten with
   arbitrary content first (`pre = some a`: ones, random bytes, ...).  The
-  packed-bit calls take their two result buffers the same way
-  (`receiveBits` / `sendBits` of Model/Iknp.lean already take the initial words).
+  packed-bit calls take their two result buffers the same way.
+* `BitStore`, `storeRows`, `receiveBitsS`, `sendBitsS`: the packed-bit form on
+  the caller's words.  Since /repo 8f72c8a `SendBits` / `ReceiveBits` WRITE
+  each of their `n` result bits (`|=` for a 1, `&^=` for a 0:
+  `BitStore.write`); before that commit they only ORed the 1 bits in
+  (`BitStore.orOnly`, which is `receiveBits` / `sendBits` of Model/Iknp.lean —
+  the same thing on the zeroed buffers `Iknp.runCall` uses), kept only to
+  state what was wrong with it.
 
 Core Lean only.
 -/
@@ -92,6 +98,79 @@ def receiveMalAt (store : Store) (R0 R1 : Nat → Nat → Byte) (st : RecvSt) (b
     | none => none
     | some r2 => some (r2.1, r1.2.1, r1.2.2 ++ r2.2.2)
 
+/-! ### Packed-bit form on the caller's words -/
+
+/-- How `SendBits` / `ReceiveBits` store a result bit. -/
+inductive BitStore where
+  /-- /repo HEAD (since 8f72c8a): `if bit == 1 { w |= m } else { w &^= m }`. -/
+  | write
+  /-- before 8f72c8a: `if bit == 1 { w |= m }` — a 0 result leaves the word alone. -/
+  | orOnly
+
+/-- `result[idx/64] &^= 1 << (idx%64)`. -/
+def clearBit (r : Words) (idx : Nat) : Words :=
+  r.modify (idx / 64) fun w => w &&& ~~~(1#64 <<< (idx % 64))
+
+/-- `for row < rows { idx := ofs+row; if bit(row) { set idx } else { clear idx } }`
+(`orOnly`: no else branch). -/
+def storeRows (bs : BitStore) (r : Words) (ofs rows : Nat) (bit : Nat → Bool) : Words :=
+  (List.range rows).foldl (fun r row =>
+    if bit row then setBit r (ofs + row) else
+      match bs with
+      | .write => clearBit r (ofs + row)
+      | .orOnly => r) r
+
+/-- Chunk loop of `ReceiveBits(choices, result, n)` (word count of /repo HEAD,
+`wordsHead`). -/
+def recvBitsLoopS (bs : BitStore) (R0 R1 : Nat → Nat → Byte) (choices : Words) (n : Nat) :
+    Nat → Nat → RecvSt → Words → RecvSt × Words × List Bytes
+  | 0, _, st, res => (st, res, [])
+  | fuel + 1, ofs, st, res =>
+    if ofs < n then
+      let rows := min chunkRows (n - ofs)
+      let byteRows := (rows + 7) / 8
+      let wordOffset := ofs / 64
+      let words := wordsHead byteRows
+      let uc := recvCols R0 R1 st byteRows fun tmp => xorWords tmp choices wordOffset words
+      let labelsBuf := createLabels chunkRows uc.2 byteRows
+      let res' := storeRows bs res ofs rows fun row => labelBit (labelsBuf.getD row 0#128) 0
+      let rest := recvBitsLoopS bs R0 R1 choices n fuel (ofs + rows) (st.adv byteRows) res'
+      (rest.1, rest.2.1, uc.1 :: rest.2.2)
+    else (st, res, [])
+
+/-- `IKNPReceiver.ReceiveBits(choices, result, n)`; `none` = the buffer-length
+error returns. -/
+def receiveBitsS (bs : BitStore) (R0 R1 : Nat → Nat → Byte) (st : RecvSt) (choices result : Words) (n : Nat) :
+    Option (RecvSt × Words × List Bytes) :=
+  if (n + 63) / 64 > choices.size then none
+  else if (n + 63) / 64 > result.size then none
+  else some (recvBitsLoopS bs R0 R1 choices n n 0 st result)
+
+/-- Chunk loop of `SendBits(n, result)`. -/
+def sendBitsLoopS (bs : BitStore) (SS : Nat → Nat → Byte) (delta : Label) (n : Nat) :
+    Nat → Nat → SendSt → Words → List Bytes → Option (SendSt × Words × List Bytes)
+  | 0, ofs, st, res, msgs => if ofs < n then none else some (st, res, msgs)
+  | fuel + 1, ofs, st, res, msgs =>
+    if ofs < n then
+      match msgs with
+      | [] => none
+      | chunk :: more =>
+        if chunk.size % K ≠ 0 then none else
+        let byteRows := chunk.size / K
+        if byteRows > chunkByteRows then none else
+        let rows := byteRows * 8
+        let t := sendCols SS delta st chunk byteRows
+        let maxRows := min rows (n - ofs)
+        let res' := storeRows bs res ofs maxRows fun row => (bget t (row / 8)).getLsbD (row % 8)
+        sendBitsLoopS bs SS delta n fuel (ofs + maxRows) (st.adv byteRows) res' more
+    else some (st, res, msgs)
+
+/-- `IKNPSender.SendBits(n, result)`. -/
+def sendBitsS (bs : BitStore) (SS : Nat → Nat → Byte) (delta : Label) (st : SendSt) (n : Nat) (result : Words)
+    (msgs : List Bytes) : Option (SendSt × Words × List Bytes) :=
+  if (n + 63) / 64 > result.size then none
+  else sendBitsLoopS bs SS delta n (n + 1) 0 st result msgs
+
 /-! ### Buffers of a history of calls -/
 
 /-- `a[off : off+len]`. -/
@@ -149,7 +228,7 @@ structure CallOutB where
   initSW : Words := #[]
 
 /-- One call on the pair, writing into the named buffers. -/
-def runCallB (store : Store) (R0 R1 SS : Nat → Nat → Byte) (delta : Label) (rs : RecvSt) (ss : SendSt)
+def runCallB (store : Store) (bs : BitStore) (R0 R1 SS : Nat → Nat → Byte) (delta : Label) (rs : RecvSt) (ss : SendSt)
     (ar : Arena) : CallB → Option (RecvSt × SendSt × Arena × CallOutB × List Bytes)
   | .labels mal b b0 b1 buf =>
     match buf.resolve 0#128 ar.labels b.size with
@@ -171,10 +250,10 @@ def runCallB (store : Store) (R0 R1 SS : Nat → Nat → Byte) (delta : Label) (
     | some (ra, roff, rlen), some (sa, soff, slen) =>
       let rwin := window 0#64 ra roff rlen
       let swin := window 0#64 sa soff slen
-      match receiveBits R0 R1 rs choices rwin n with
+      match receiveBitsS bs R0 R1 rs choices rwin n with
       | none => none
       | some r =>
-        match sendBits SS delta ss n swin r.2.2 with
+        match sendBitsS bs SS delta ss n swin r.2.2 with
         | some (ss', sw, []) =>
           some (r.1, ss',
             { ar with rwords := rbuf.commit 0#64 ar.rwords ra roff r.2.1,
@@ -184,12 +263,12 @@ def runCallB (store : Store) (R0 R1 SS : Nat → Nat → Byte) (delta : Label) (
     | _, _ => none
 
 /-- A history of calls on one pair and one set of arrays. -/
-def sessionB (store : Store) (R0 R1 SS : Nat → Nat → Byte) (delta : Label) :
+def sessionB (store : Store) (bs : BitStore) (R0 R1 SS : Nat → Nat → Byte) (delta : Label) :
     RecvSt → SendSt → Arena → List CallB → Option (List CallOutB)
   | _, _, _, [] => some []
   | rs, ss, ar, c :: cs =>
-    match runCallB store R0 R1 SS delta rs ss ar c with
+    match runCallB store bs R0 R1 SS delta rs ss ar c with
     | none => none
-    | some (rs', ss', ar', out, _) => (sessionB store R0 R1 SS delta rs' ss' ar' cs).map (out :: ·)
+    | some (rs', ss', ar', out, _) => (sessionB store bs R0 R1 SS delta rs' ss' ar' cs).map (out :: ·)
 
 end Mpc.Iknp
